@@ -833,7 +833,7 @@ func findSegmentData(segs []*MediaSegment, refTrak *TrakBox, trex *TrexBox) ([]s
 			for _, traf := range frag.Moof.Trafs {
 				tfhd := traf.Tfhd
 				if tfhd.TrackID == refTrak.Tkhd.TrackID { // Find track that gives sidx time values
-					if fIdx == 0 {
+					if fIdx == 0 && traf.Tfdt != nil {
 						baseTime = traf.Tfdt.BaseMediaDecodeTime()
 					}
 					for i, trun := range traf.Truns {
